@@ -2,6 +2,11 @@
 """Regenerates MANIFEST.json from the table below (keeps it valid at all times)."""
 import json, sys
 CHECKS = {
+ "C17": dict(level="exploration", design="4/C17",
+   text="Generic helper: every digraph on 1-4 nodes incl. self-loops x every listing order x every non-empty start subset (exhaustive, 23.6 M orderings), every 5-node digraph without self-loops x 8 listing orders (exhaustive in thorough, 800 k sampled in quick), random graphs to 300 nodes incl. depth-300 chains. Embedded orderers through their public callers (raw::DepOrder::order, Library::from_gds, tetris Library::dep_order, tetris ProtoExporter::export, Placer::place) on random DAGs and cyclic graphs up to 200 nodes. Oracle: graph model - reachable set, Kahn cycle test, validity predicate accepting any topological order; cyclic => error required.",
+   note="Unbounded recursion is observed as the death of the checking process (re-run in isolation by the supervisor).",
+   technique="exhaustive enumeration of small digraphs + property-based testing against a graph reference model (validity predicate)"),
+
  "C12": dict(level="exploration", design="4/C12",
    text="Exhaustive over placement chains of depth 1-3 (depth 4 in thorough) on the eight right-angle orientations x 5 offsets per level, every point of a 9x9 grid: Transform::from_instance / cascade / Point::transform must equal the exact integer composition reflect->rotate ccw->translate, and (depth 1) the cascade of the library's own elementary transforms; random chains with large offsets; random cell hierarchies through Layout::flatten compared as multisets with the model composition; general angles against real arithmetic within 0.5.",
    note="Trusted base: integer orientation matrices in harness/src/refmodel/geom.rs.",
